@@ -401,6 +401,9 @@ func runC08(c *Ctx) {
 		}
 		vals := g.Stream()
 		binary := i%2 == 1
+		if dd := navDirectedDocs(); i/2 < len(dd) {
+			vals = dd[i/2]
+		}
 		rk := ReadCase{CaseSeed: cs, Binary: binary, P: []float64{0.1, 0.3, 0.5}[i%3], Vals: vals}
 		data, unordered, feats, err := rk.render()
 		if err != nil {
